@@ -352,7 +352,12 @@ class ObjectDomain(EffectDomain):
             return f"obj.{cur[1]}.{ch[-1]}"
         return None
 
+    wobj_state = True
+
     def store_attr_on(self, base, attr, value, st, fr):
+        got = super().store_attr_on(base, attr, value, st, fr)
+        if got is not None:
+            return got
         if base == ("self",):
             return st.set("self." + attr, value)
         if is_inst(base):
